@@ -1489,25 +1489,81 @@ XP_DOCS = [
 XP_PAIRS = [(0, 1), (1, 0), (3, 4), (4, 3), (6, 7), (7, 6), (9, 10), (10, 9), (11, 1), (5, 11)]
 
 
+# XSD 1.1: the type of <item> is selected by xs:alternative tests over an attribute that is declared
+# inheritable="true" on an ANCESTOR (root or group): get_alternative_type() evaluates the tests on a scratch
+# element filled with the inherited values, which must be private to the call
+INH_XSD = """<xs:schema xmlns:xs="http://www.w3.org/2001/XMLSchema" elementFormDefault="qualified">
+ <xs:element name="root"><xs:complexType><xs:sequence>
+   <xs:element name="item" type="itemBase" minOccurs="0" maxOccurs="unbounded">
+     <xs:alternative test="@kind='num'" type="numItem"/>
+     <xs:alternative test="@kind='word'" type="wordItem"/>
+   </xs:element>
+   <xs:element name="group" minOccurs="0" maxOccurs="unbounded"><xs:complexType><xs:sequence>
+     <xs:element name="item" type="itemBase" minOccurs="0" maxOccurs="unbounded">
+       <xs:alternative test="@kind='num' and @unit='u'" type="numItem"/>
+       <xs:alternative test="@kind='word'" type="wordItem"/>
+     </xs:element></xs:sequence>
+     <xs:attribute name="unit" type="xs:string" inheritable="true"/>
+   </xs:complexType></xs:element>
+  </xs:sequence>
+  <xs:attribute name="kind" type="xs:string" inheritable="true"/>
+ </xs:complexType></xs:element>
+ <xs:complexType name="itemBase"><xs:simpleContent><xs:extension base="xs:string">
+   <xs:attribute name="n" type="xs:string"/></xs:extension></xs:simpleContent></xs:complexType>
+ <xs:complexType name="numItem"><xs:simpleContent><xs:restriction base="itemBase">
+   <xs:enumeration value="1"/><xs:enumeration value="2"/></xs:restriction></xs:simpleContent></xs:complexType>
+ <xs:complexType name="wordItem"><xs:simpleContent><xs:restriction base="itemBase">
+   <xs:enumeration value="one"/><xs:enumeration value="two"/></xs:restriction></xs:simpleContent></xs:complexType>
+</xs:schema>"""
+XSD11_SCHEMAS.add(INH_XSD)
+INH_DOCS = [
+    '<root kind="num"><item>1</item><item n="a">2</item></root>',                                   # 0 valid, numItem
+    '<root kind="word"><item>one</item><item n="b">two</item></root>',                              # 1 valid, wordItem
+    '<root kind="other"><item>anything</item><item>1</item></root>',                                # 2 valid, itemBase
+    '<root kind="num"><item>1</item><item>two</item></root>',                                       # 3 INVALID (2nd item)
+    '<root kind="num"><group unit="u"><item>2</item></group><group unit="v"><item>x</item></group></root>',   # 4 valid
+    '<root kind="word"><group unit="u"><item>two</item><item>1</item></group></root>',              # 5 INVALID
+]
+INH_PAIRS = [(0, 1), (1, 0), (3, 1), (2, 3), (4, 5), (5, 4), (1, 4), (2, 0)]
+
+
 def library_prefixes() -> tuple:
     import elementpath
     return (PREFIX, os.path.dirname(os.path.abspath(elementpath.__file__)) + os.sep)
 
 
-def preempt_once(schema: Any, op: str, doc_a: str, doc_b: str, k: int) -> tuple[Any, Any, int]:
+def preempt_once(schema: Any, op: str, doc_a: str, doc_b: str, k: int, scope: Optional[str] = None) -> tuple[Any, Any, int]:
     """Thread A runs `op(doc_a)` and is suspended at its k-th function call inside xmlschema OR elementpath; thread B
-    (the caller) runs `op(doc_b)` to the end; A resumes.  Returns (result A, result B, number of calls of A)."""
+    (the caller) runs `op(doc_b)` to the end; A resumes.  Returns (result A, result B, number of calls of A).
+    With `scope` (a function name) the switch points are instead the LINE boundaries (and calls) of every library
+    frame in the dynamic extent of a call of that function: A is suspended at the k-th of them."""
     prefixes = library_prefixes()
     reached, resume = threading.Event(), threading.Event()
     out: dict = {}
     count = [0]
+    depth = [0]
+
+    def point() -> None:
+        count[0] += 1
+        if count[0] == k:
+            reached.set()
+            resume.wait(JOIN_TIMEOUT)
+
+    def local(frame, event, arg):
+        if event == 'line':
+            point()
+        elif event == 'return':
+            depth[0] -= 1
+        return local
 
     def tracer(frame, event, arg):
         if event == 'call' and frame.f_code.co_filename.startswith(prefixes):
-            count[0] += 1
-            if count[0] == k:
-                reached.set()
-                resume.wait(JOIN_TIMEOUT)
+            if scope is None:
+                point()
+            elif depth[0] > 0 or frame.f_code.co_name == scope:
+                depth[0] += 1
+                point()
+                return local
         return None
 
     def thread_a() -> None:
@@ -1526,7 +1582,8 @@ def preempt_once(schema: Any, op: str, doc_a: str, doc_b: str, k: int) -> tuple[
     return out.get('A'), out.get('B'), count[0]
 
 
-def preemption_family(ctx: Ctx, base: Baseline, docs: list, pairs: list, stride_above: int, tagname: str) -> bool:
+def preemption_family(ctx: Ctx, base: Baseline, docs: list, pairs: list, stride_above: int, tagname: str,
+                      scope: Optional[str] = None) -> bool:
     """EXHAUSTIVE single-preemption family: for a pair of calls (A, B) on one shared built schema, A is suspended at
     EVERY function call it makes inside xmlschema or elementpath (every k; every `stride`-th when A makes more than
     `stride_above` calls), B runs completely in the window, A resumes.  Any two-thread atomicity violation that one
@@ -1537,21 +1594,25 @@ def preemption_family(ctx: Ctx, base: Baseline, docs: list, pairs: list, stride_
         op = 'iter_errors' if (ia + ib) % 2 else 'decode'
         schema = fresh(base.xsd, True)
         want_a, want_b = base.result(op, docs[ia]), base.result(op, docs[ib])
-        preempt_once(schema, op, docs[ia], docs[ib], -1)      # warm the caches: the cold first call is much longer
-        total = preempt_once(schema, op, docs[ia], docs[ib], -1)[2]
+        preempt_once(schema, op, docs[ia], docs[ib], -1, scope)      # warm the caches: the cold first call is much longer
+        total = preempt_once(schema, op, docs[ia], docs[ib], -1, scope)[2]
         stride = 1 if total <= stride_above else (total + stride_above - 1) // stride_above
         ctx.count(f'preempt:{tagname}:calls of A', total)
         for k in range(1, total + 1, stride):
-            got_a, got_b, _ = preempt_once(schema, op, docs[ia], docs[ib], k)
+            got_a, got_b, _ = preempt_once(schema, op, docs[ia], docs[ib], k, scope)
             case = {'preempt': tagname, 'a': ia, 'b': ib, 'op': op, 'k': k}
+            if scope:
+                case['scope'] = scope
             full = dict(case, xsd=base.xsd, docs=[docs[ia], docs[ib]])
             ctx.case(case, True, tag=f'preempt/{tagname}')
             for name, doc, got, want in (('A', docs[ia], got_a, want_a), ('B', docs[ib], got_b, want_b)):
                 if got != want:
                     wrong = True
                     detail = {'thread': name, 'op': op, 'xml': doc, 'threaded': got, 'single': want,
-                              'schedule': f'thread A suspended at its library call #{k} (xmlschema + elementpath), '
-                                          'thread B runs its whole call, A resumes'}
+                              'schedule': (f'thread A suspended at line/call boundary #{k} of the library frames inside {scope}() '
+                                           'and its callees' if scope else
+                                           f'thread A suspended at its library call #{k} (xmlschema + elementpath)') +
+                                          ', thread B runs its whole call, A resumes'}
                     fid = known_match(full, detail)
                     if fid:
                         ctx.known_hit(fid)
@@ -1864,6 +1925,12 @@ def run(ctx: Ctx, driver_ok: bool) -> None:
             allp = [(a, b) for a in range(len(XP_DOCS)) for b in range(len(XP_DOCS)) if a != b and (a, b) not in XP_PAIRS]
             preemption_family(ctx, xpbase, XP_DOCS, allp, 60, 'xp-all')
         preemption_family(ctx, base, POOL_DOCS, [(1, 2), (2, 1), (3, 11)], ctx.pick(150, 1500), 'pool')
+        # alternatives tested over INHERITED attributes: every line/call boundary inside get_alternative_type
+        # and the frames it calls (XsdAlternative.test, the elementpath evaluation), then every library call
+        inhbase = Baseline(INH_XSD)
+        preemption_family(ctx, inhbase, INH_DOCS, INH_PAIRS[:ctx.pick(5, 8)], ctx.pick(150, 3000), 'inherited-alt-lines',
+                          'get_alternative_type')
+        preemption_family(ctx, inhbase, INH_DOCS, INH_PAIRS[:ctx.pick(3, 8)], ctx.pick(150, 1500), 'inherited-alt')
         xpath_family(ctx, batch, xpbase, ctx.pick(60, 600))
         flush(ctx, batch, drv)
         # 0c. LINE granularity inside the modelled functions, 2-3 threads, small schemas
@@ -2002,8 +2069,8 @@ def replay(ctx: Ctx, obj: dict) -> int:
         schema = fresh(case['xsd'], True)
         a, b = case['docs']
         for _ in range(2):      # as in the family: the switch point is counted on a schema whose caches are warm
-            preempt_once(schema, case['op'], a, b, -1)
-        got_a, got_b, _ = preempt_once(schema, case['op'], a, b, case['k'])
+            preempt_once(schema, case['op'], a, b, -1, case.get('scope'))
+        got_a, got_b, _ = preempt_once(schema, case['op'], a, b, case['k'], case.get('scope'))
         for name, doc, got in (('A', a, got_a), ('B', b, got_b)):
             want = base.result(case['op'], doc)
             print(f'thread {name}: threaded {json.dumps(got)[:400]}\n          single   {json.dumps(want)[:400]}')
